@@ -154,12 +154,13 @@ def has_duplicate_names(node):
     return False
 
 
-def classify(node):
-    if has_unnamed_output(node):
-        return FINDING_UNNAMED
-    if has_duplicate_names(node):
-        return FINDING_DUPNAME
-    return None
+def classify(node, raised=True):
+    """Known-finding input class of a failing input.  An input may belong to both classes: an exception points at the
+    unreadable schema, a silently wrong schema at the collapsed names."""
+    classes = [FINDING_UNNAMED if has_unnamed_output(node) else None, FINDING_DUPNAME if has_duplicate_names(node) else None]
+    if not raised:
+        classes.reverse()
+    return next((c for c in classes if c), None)
 
 
 def schema_matches(expected, got):
@@ -277,8 +278,8 @@ def _replay_lines(lines):
     samples = []
     kept = collections.Counter()
 
-    def fail(what, rep, node):
-        finding = classify(node)
+    def fail(what, rep, node, raised=True):
+        finding = classify(node, raised)
         kept[finding] += 1
         fails.append((what, rep if kept[finding] <= 3 else None, finding))
 
@@ -305,7 +306,8 @@ def _replay_lines(lines):
         schema, sres = read_schema(obj, unnamed)
         if sres != 'ok' or not schema_matches(e['sch'], schema):
             fail(f'.schema of {obj!r} is {schema if sres == "ok" else sres}, expected {_fmt(e["sch"])}',
-                 dict(base, call=None, expected_schema=e['sch'], observed_schema=schema if sres == 'ok' else sres), ast)
+                 dict(base, call=None, expected_schema=e['sch'], observed_schema=schema if sres == 'ok' else sres), ast,
+                 sres != 'ok')
         else:
             stats['schemas'] += 1
         # every call of the alphabet
@@ -329,7 +331,7 @@ def _replay_lines(lines):
                 if res != 'grammar':
                     fail(f'{c["m"]} call {ci} on {obj!r} breaks {exp} but ' +
                          ('was accepted' if res == 'ok' else f'raised {res[6:]} instead of GrammarError'),
-                         dict(base, call=ci, expected='GrammarError', rules=exp, observed=res), cand_ast)
+                         dict(base, call=ci, expected='GrammarError', rules=exp, observed=res), cand_ast, res != 'ok')
                 continue
             nxt = next_key(key, exp)
             nast, ncanon = _expanded(nxt, al)
@@ -337,7 +339,7 @@ def _replay_lines(lines):
             if res != 'ok':
                 fail(f'{c["m"]} call {ci} on {obj!r} conforms to the grammar but raised ' +
                      ('GrammarError' if res == 'grammar' else res[6:]),
-                     dict(base, call=ci, expected='ok', observed=res), nast)
+                     dict(base, call=ci, expected='ok', observed=res), nast, res != 'grammar')
                 continue
             got = g.project(succ)
             if g.canon(got) != ncanon:
@@ -542,11 +544,11 @@ def trace_validate(chk, items, procs, label):
             what = (f'statement breaking {broken} was ' + ('accepted' if o['res'] == 'ok' else f'answered {o["res"]}')
                     if broken else f'conforming statement raised {o["res"]}')
             chk.fail(f'{what}: {_show(node)}', {'kind': 'statement', 'ast': node, 'observed': o['res'], 'broken': broken},
-                     classify(node))
+                     classify(node, o['res'].startswith('error')))
         elif not schema_ok:
             chk.fail(f'.schema {o["schema"] if o["schema_res"] == "ok" else o["schema_res"]} does not list the outputs of '
                      f'{_show(node)}', {'kind': 'statement', 'ast': node, 'observed_schema': o['schema'],
-                                        'schema_res': o['schema_res']}, classify(node))
+                                        'schema_res': o['schema_res']}, classify(node, o['schema_res'] != 'ok'))
         else:
             chk.validated()
             if label_ != 'conforming' and i % 997 == 0:
@@ -566,9 +568,10 @@ def generator_items(chk, rnd):
     """Conforming generator statements + each single-rule violation at each position."""
     if chk.quick:
         stmts = g.statements(2, False)
-        stmts = stmts[::5] + g.statements(1, False)[1::7][:150]
+        stmts = stmts[::5] + g.statements(1, False)[1::7][:150] + [g.random_statement(rnd, 3) for _ in range(40)]
     else:
         stmts = g.statements(2, False) + rnd.sample(g.statements(2, True), 6000)
+        stmts += [g.random_statement(rnd, 3) for _ in range(400)] + [g.random_statement(rnd, 4) for _ in range(200)]
     seen, items = set(), []
     for s in stmts:
         for label, node in itertools.chain([('conforming', s)], ((r, m) for r, _, m in g.violations(s))):
